@@ -8,6 +8,7 @@
 import PonyVerif.Lemmas.SharedCache
 import PonyVerif.Lemmas.SharedMemo
 import PonyVerif.Gen.CacheKeys
+import PonyVerif.Gen.StoreLast
 namespace PonyVerif.Props.C22
 open PonyVerif.Model.SharedCache
 
@@ -181,6 +182,32 @@ theorem C22_memo_collision_serves_foreign_value :
     ∃ (m : Memo Nat Nat Nat) (progs : List (List Nat)) (sched : List Nat),
       ((PonyVerif.Model.SharedMemo.run m (PonyVerif.Model.SharedMemo.State.init progs) sched).1.th 1).results = [(2, 1)] ∧ m.compute 2 = 2 :=
   ⟨plain (fun _ => 0) id, [[1], [2]], [0, 0, 1], by decide, rfl⟩
+
+/-- **published values are complete** (bridge to the source, regenerated on every run by harness/gen_c22.py): in every function
+    that publishes a value in a process-wide cache (`create_extractors`, `string2ast`, `decompile`, `adapt_sql`,
+    `_construct_sql_and_arguments`, the four translator-publishing sites) no statement that can run after the store mutates
+    the published object -/
+theorem C22_stores_complete : PonyVerif.Gen.StoreLast.allStoresLast = true := by decide
+
+/-- that fact is NEEDED: a miss branch that publishes its object before it has finished building it (`early = true`) lets
+    another thread look the unfinished object up (two threads, same input 5, three steps: thread 1 is handed `0`) -/
+theorem C22_memo_early_store_serves_unfinished :
+    ∃ (m : Memo Nat Nat Nat) (part : Nat → Nat) (progs : List (List Nat)) (sched : List Nat),
+      Transparent m ∧
+      ((PonyVerif.Model.SharedMemo.runG m true part (PonyVerif.Model.SharedMemo.State.init progs) sched).1.th 1).results = [(5, 0)] ∧
+      m.compute 5 = 5 :=
+  ⟨plain id id, fun _ => 0, [[5], [5]], [0, 0, 1], fun i j _ _ hk _ _ => by simpa [plain] using hk.symm, by decide, rfl⟩
+
+/-- **C22, every memo cache AS CODED**: the protocol variant is selected by the regenerated source fact (`early` = some
+    publishing site mutates its object after the store); for the code as it is, every value any thread gets is its own cold
+    value, under every schedule -/
+theorem C22_memo_threads_as_coded {I K V : Type} [DecidableEq K] (m : Memo I K V) (ht : Transparent m)
+    (progs : List (List I)) (sched : List Nat) (t : Nat) (i : I) (v : V)
+    (h : (i, v) ∈ ((PonyVerif.Model.SharedMemo.runG m (!PonyVerif.Gen.StoreLast.allStoresLast) m.compute
+            (PonyVerif.Model.SharedMemo.State.init progs) sched).1.th t).results) : v = m.compute i := by
+  have hflag : (!PonyVerif.Gen.StoreLast.allStoresLast) = false := by decide
+  rw [hflag, PonyVerif.Model.SharedMemo.runG_false] at h
+  exact C22_memo_threads m ht progs sched t i v h
 
 /-- the caches whose key is a tuple of input fields, keys AS CODED (`Gen/CacheKeys.lean`, regenerated from the source on
     every run): whatever the miss branch computes from the fields it reads, threads never interfere through them -/
